@@ -90,6 +90,36 @@ func runHistory(k *mon.Case) {
 				s.Reconsider(invalidated)
 				invalidated = nil
 			}
+		case x < 96 && invalidated == nil:
+			// a block that spends nothing is connected, everything is flushed (the cache holds nothing), the block is
+			// disconnected and connected again, and the node stops without a final flush: the restart has to bring the
+			// utxo set to the tip from whatever the flush marker says
+			b := g.Block(r, s.Tip, chaingen.BlockOpts{NTx: 0, Easy: r.Bool()})
+			leaves = append(leaves, b)
+			s.DeliverBlock(b)
+			if s.Failed || s.Tip != b {
+				continue
+			}
+			// no utxo reads between the steps (a read would put entries into the cache): the utxo checks are switched
+			// off until the restart, which is followed by the full comparison
+			s.CheckUtxo = false
+			s.Flush(blockchain.FlushRequired)
+			s.Invalidate(b)
+			if r.Chance(1, 3) && !s.Failed {
+				s.Flush(blockchain.FlushRequired)
+			}
+			if !s.Failed {
+				s.Reconsider(b)
+			}
+			s.CheckUtxo = true
+			if !s.Failed {
+				s.Restart(false)
+				if !s.Failed {
+					s.Flush(blockchain.FlushRequired)
+					s.CheckPersistedUtxo()
+				}
+				k.Count("hist.empty-cache-disconnect-reconnect-unclean-stop", 1)
+			}
 		default:
 			s.CheckSpendJournals()
 			s.CheckUtxoViews(r, 6)
